@@ -384,7 +384,7 @@ func genRadix(g *gen, th bool, scale int) {
 	}
 	// bases outside 2..64: to_radix is an error ("base too small" / "base too large")
 	for _, b := range []int{0, 1, 65, 100} {
-		for _, n := range []string{"0", "1", "5", "255", "18446744073709551616"} {
+		for _, n := range []string{"0", "5", "18446744073709551616"} {
 			g.add(true, "radix rt %d %s", b, n)
 		}
 		for _, t := range []string{"0", "1", "10", "_"} {
